@@ -98,6 +98,27 @@ let check (op : string) (ty : string) (a : string array) (expected : string) : b
   (* the copying form of swap_adjacent takes its receiver by mutable reference: it must leave it alone. The line records
      the receiver before (argument, as the function it denotes) and after (result, raw): they must be the same table.
      An `operand_changed` line is only written when a borrowed operand of a logical operator came back changed. *)
+  if op = "all_functions_jumps" || op = "all_functions_strided" then
+    (* C08: item number r of the run (from 0) is the function whose table, read as a number, is r; the run has
+       2^(2^n) items and then ends. The expected items are computed by rank arithmetic (n <= 4: one word, machine
+       integers - glue, not extracted code) *)
+    (if expected = "panic" then Some false else
+     let n = p_nat a.(0) in
+     let ni = int_of_nat n in
+     if ni > 4 then None else
+     let total = 1 lsl (1 lsl ni) in
+     let show r = s_lut { nv = n; tbl = [n_of_int r] } in
+     let items =
+       if op = "all_functions_jumps" then begin
+         let pos = ref 0 in
+         List.map (fun j -> let r = !pos + int_of_n j in
+                            if !pos < total && r < total then (pos := r + 1; show r) else (pos := total; "none")) (p_nlist a.(1))
+       end else begin
+         let sk = int_of_n (p_n a.(1)) and stp = int_of_n (p_n a.(2)) and k = int_of_n (p_n a.(3)) in
+         let rec go r i acc = if i >= k || r >= total then List.rev acc else go (r + stp) (i + 1) (show r :: acc) in
+         go sk 0 []
+       end in
+     Some (expected = (if items = [] then "none" else String.concat ";" items))) else
   if op = "all_functions_after" then
     (* C02 / C08: the run has 2^(2^n) items; whatever the iterator yields after its end is a well-formed table *)
     (if expected = "panic" then Some false else
@@ -309,6 +330,9 @@ let check (op : string) (ty : string) (a : string array) (expected : string) : b
   | "o.is_zero" -> let x = p_soes a.(0) in
      if int_of_nat x.onv > 12 then None else
      Some ((not (p_bool expected)) || List.for_all (fun m -> not (spec_soes_value x.ocubes m)) (dom x.onv))
+  | "c.display_distinct" ->
+     (* recorded: (a == b) | (text a = text b); the statement wants the two to agree *)
+     (match split_res expected with [e; t] -> Some (e = t) | _ -> Some false)
   | "c.display" -> let x = p_cube a.(0) in
      let k = cube_bits x in
      Some (chk_text (p_bytes expected) (spec_cube_value x) (if k <= 12 then dom (nat_of_int k) else sample_assignments) false)
